@@ -374,24 +374,40 @@ func ruleR14_5(p *Program, r *Report) {
 			}
 			recv := fn.Params[0]
 			lab := newLabeler()
+			if isPureHandOver(fn) {
+				continue // the Write extracted into a helper: judged where the helper is called
+			}
 			for _, c := range allCalls(fn) {
-				if d, _ := dstDirect(callInfo(c)); !d {
-					continue
+				idxSel := ""
+				if h := c.Common().StaticCallee(); h != nil && h.Blocks != nil && h.Signature.Recv() != nil && len(c.Common().Args) > 0 && c.Common().Args[0] == ssa.Value(recv) && isPureHandOver(h) {
+					// the helper's own slice expression, relative to its receiver = this receiver
+					for _, hc := range allCalls(h) {
+						if d, _ := dstDirect(callInfo(hc)); d {
+							if sl, ok := hc.Common().Args[len(hc.Common().Args)-1].(*ssa.Slice); ok {
+								_, idxSel, _ = fieldLoad(sl.High)
+							}
+						}
+					}
 				}
-				args := c.Common().Args
-				if len(args) == 0 {
-					continue
+				if idxSel == "" {
+					if d, _ := dstDirect(callInfo(c)); !d {
+						continue
+					}
+					args := c.Common().Args
+					if len(args) == 0 {
+						continue
+					}
+					sl, ok := args[len(args)-1].(*ssa.Slice)
+					if !ok || sl.High == nil {
+						continue
+					}
+					rootX, selX := accessPath(sl.X)
+					_, selH, okH := fieldLoad(sl.High)
+					if rootX != recv || !okH || !strings.HasSuffix(selX, ".output") || !strings.HasSuffix(selH, ".idx") {
+						continue
+					}
+					idxSel = selH
 				}
-				sl, ok := args[len(args)-1].(*ssa.Slice)
-				if !ok || sl.High == nil {
-					continue
-				}
-				rootX, selX := accessPath(sl.X)
-				_, selH, okH := fieldLoad(sl.High)
-				if rootX != recv || !okH || !strings.HasSuffix(selX, ".output") || !strings.HasSuffix(selH, ".idx") {
-					continue
-				}
-				idxSel := selH
 				key := shortFn(fn) + "|" + lab.get("hand-over")
 				// exempt: the hand-over of a final block (dominated by a boolean parameter known true that is a "final" flag:
 				// the parameter that R10.6 identifies flows to eos; here: any bool parameter asserted true together with the call to writeFinalEmptyBlock before it)
